@@ -24,6 +24,7 @@ func init() {
 			{"C08.R5", "q", "who may write node summaries", c08r5},
 			{"C08.R6", "q", "key hash reconstruction parameters", c08r6},
 			{"C08.R7", "q", "no hash bits lost in a leaf", c08r7},
+			{"C10.R1", "q", "shared: the value hash entering the tree is taken before compression", c10r1},
 		},
 	})
 }
